@@ -118,6 +118,7 @@ class Reaction(Object):
         self._upper_bound = (
             upper_bound if upper_bound is not None else config.upper_bound
         )
+        self._check_bounds(self._lower_bound, self._upper_bound)
 
     def _set_id_with_model(self, value: str) -> None:
         """Set Reaction id in model, check that it doesn't already exist.
